@@ -216,8 +216,8 @@ CLAIMS = {
         note="What the control files list is configuration (constmap is a recording oracle in rewrite); the percent-hack "
              "round itself (cut at @, last % becomes @) is checked through the loop invariant only at the level 'the probe "
              "follows an @'; todo_do: recipients keep their order and none is dropped, duplicated or merged (each record "
-             "goes to exactly one channel list before the next is read); senderadd (VERP expansion) is a bounded stand-in "
-             "(<= 10 bytes); control_readfile (the reader of locals/virtualdomains) is proved with loop contracts.",
+             "goes to exactly one channel list before the next is read); senderadd (VERP expansion) is proved for sender and "
+             "recipient of any length (send_senderadd_u); control_readfile (the reader of locals/virtualdomains) is proved with loop contracts.",
         design_ref="DESIGN.md section 5 C10"),
     "C13": dict(
         text="Proof (CBMC) on the unmodified qmail-local.c: main() (7 loop contracts, control files, addresses and extensions of "
